@@ -116,6 +116,10 @@ def xml_noise(rng, text, p=0.2):
         # attributes on ID tags do not change the ID
         out = re.sub(r'<(storyID|itemID)>', lambda m: '<%s rev="%d">' % (m.group(1), rng.randint(1, 9))
                      if rng.random() < 0.3 else m.group(0), out)
+    if rng.random() < 0.25:
+        # a DEFAULT namespace declared on a vendor element somewhere below the (un-namespaced) envelope
+        out = re.sub(r'<(mosAbstract|info|mosExtra|mosTrailer|meta|data|blk)(?=[ >/])',
+                     lambda m: '<%s xmlns="urn:vendor:default"' % m.group(1) if rng.random() < 0.5 else m.group(0), out, count=3)
     r = rng.random()
     if not out.lstrip().startswith('<?xml') and '<!DOCTYPE' not in out:
         if r < 0.25:
